@@ -702,8 +702,17 @@ class BinaryOp(Expr):
                 'non-primitive values')
 
     def _eval_numeric(self):
-        left = self.type.coerce(self.left.eval())
-        right = self.type.coerce(self.right.eval())
+        operand_type = self.type
+        if self.op.is_comparison:
+            # operands are compared in the bigger of their two types (as
+            # the generated code does), not in the INTEGER type of the
+            # result
+            for t in (Type.DOUBLE, Type.SINGLE, Type.LONG, Type.INTEGER):
+                if t in (self.left.type, self.right.type):
+                    operand_type = t
+                    break
+        left = operand_type.coerce(self.left.eval())
+        right = operand_type.coerce(self.right.eval())
 
         def qbool(x):
             return -1 if x else 0
